@@ -66,6 +66,9 @@ def cases(tier, seed):
         for typ in ("rydberg", "xy"):
             for first in (16, 50):
                 yield {"family": "adapter", "atoms": sub, "type": typ, "first": first, "seed": seed}
+            if len(sub) == 3:
+                # the first pulse does not start at t = 0: the mask still holds from the very beginning until that pulse ends
+                yield {"family": "adapter", "atoms": sub, "type": typ, "first": 16, "delay": 20, "seed": seed}
     for backend in ("sv", "mps"):
         for shape in ("pair", "line3"):
             n = len(kit.SHAPES[shape])
@@ -77,6 +80,9 @@ def cases(tier, seed):
                             if tier == "quick" and inter != "register" and dt == 7:
                                 continue
                             yield {"family": "backend", "backend": backend, "shape": shape, "mask": mask, "dt": dt, "first": first, "inter": inter, "seed": seed}
+                            if backend == "mps" and n == 3 and mask and inter == "register" and dt == 10:
+                                for perm in ([1, 0, 2], [2, 0, 1], [0, 2, 1]):
+                                    yield {"family": "backend", "backend": backend, "shape": shape, "mask": mask, "dt": dt, "first": first, "inter": inter, "seed": seed, "perm": perm}
 
 
 def _user_matrices(n, seed):
@@ -118,7 +124,8 @@ def _adapter(case):
             "coords": coords,
             "device": "mock",
             "basis": typ,
-            "pulses": [
+            "pulses": ([{"delay": case["delay"]}] if case.get("delay") else [])
+            + [
                 {"amp": ["const", first, 3.0], "det": ["const", first, 0.0], "phase": 0.0},
                 {"amp": ["const", 24, 1.0], "det": ["const", 24, 1.0], "phase": 0.0},
             ],
@@ -129,7 +136,7 @@ def _adapter(case):
             spec["slm"] = mask
         seq = kit.build_sequence(spec)
         T = seq.get_duration()
-        end = float(first) if mask else 0.0
+        end = float(first + case.get("delay", 0)) if mask else 0.0
         Ureg = R.interaction(seq, "xy" if typ == "xy" else "rydberg")
         for uname, um in users.items():
             base = Ureg if um is None else np.array(um)
@@ -154,7 +161,8 @@ def _adapter(case):
                 if len(sds) != 1:
                     return result(False, sig="count", msg=f"{label}: {len(sds)} SequenceData for a noiseless run", outcome="count")
                 sd = sds[0]
-                qts = [0.0, T] + ([end - 1e-9, end, end + 1e-9, 0.5 * end] if mask else [first - 1e-9, float(first)])
+                qts = [0.0, T] + ([end - 1e-9, end, end + 1e-9, 0.5 * end, 1.0, case.get("delay", 0) - 1e-9, float(case.get("delay", 0))] if mask else [first - 1e-9, float(first)])
+                qts = [t for t in qts if t >= 0.0]
                 for t in qts:
                     transitions += 1
                     got = sd.interaction_matrix(t).detach().cpu().numpy()
@@ -204,16 +212,21 @@ def _backend(case):
         cfg["interaction_matrix"] = a.tolist()
     if case["inter"] == "cutoff":
         cfg["interaction_cutoff"] = 1.0  # removes the next-nearest-neighbour coupling of line3 (0.4), keeps the others
-    label = f"{case['backend']} {case['shape']} mask={case['mask']} dt={case['dt']} first={first} inter={case['inter']}"
+    label = f"{case['backend']} {case['shape']} mask={case['mask']} dt={case['dt']} first={first} inter={case['inter']} optimiser_answer={case.get('perm')}"
     try:
         if case["backend"] == "sv":
             res, _ = runner.run_sv(spec, cfg, observables=runner.sv_observables(cfg["eval"], n, with_state=False))
+        elif case.get("perm"):
+            from mc import seams
+
+            with seams.optimiser_answer(case["perm"]):
+                res, _ = runner.run_mps(spec, dict(cfg, ordering=True))
         else:
             res, _ = runner.run_mps(spec, cfg)
     except Exception as e:
         return result(False, sig=f"raises|{type(e).__name__}", msg=f"{label}: {type(e).__name__}: {e}", outcome="raise")
     tags = ["occupation", "correlation_matrix", "energy"]
-    tol = 1e-6 if case["backend"] == "sv" or n == 2 else 5e-3  # N=3 TDVP: splitting error of the long-range terms at dt*|H| ~ 1 (measured <= 3.3e-3; schedule errors move occupations by >= 0.2)
+    tol = 1e-6 if case["backend"] == "sv" or n == 2 else (2e-2 if case.get("perm") else 5e-3)  # a permuted chain turns neighbours into next-nearest neighbours: larger splitting error (measured 9.6e-3)  # N=3 TDVP: splitting error of the long-range terms at dt*|H| ~ 1 (measured <= 3.3e-3; schedule errors move occupations by >= 0.2)
     ref = runner.Ref(spec, cfg, slm_rule="start")
     bad = runner.compare_results(res, ref, cfg["eval"], tol, tol, tags=tags)
     if bad and ref.straddle:
